@@ -359,7 +359,23 @@ func lattice3(r *vlib.Run) {
 		}
 		small := 0.05 + 0.05*rng.Float64()
 		big := small * float64(2+rng.Intn(3))
-		mesh := model3d.MarchingCubesC2F(s, big, small, 0, rng.Intn(4))
+		iters := rng.Intn(4)
+		if c.Index%3 == 2 {
+			// large coarse/fine ratios: the coarse mesh chamfers sharp edges by up to a coarse
+			// cell, which the dilated filter has to cover (every feature here is >= 2.5 coarse cells)
+			ratio := []int{8, 12, 16, 24, 32}[rng.Intn(5)]
+			big = 0.3 + 0.1*rng.Float64()
+			small = big / float64(ratio)
+			if kind == 1 {
+				kind = 2
+				s = model3d.NewRect(ctr, ctr.Add(model3d.XYZ(1+rng.Float64(), 1+rng.Float64(), 1+rng.Float64())))
+			}
+			if rng.Intn(2) == 0 {
+				iters = 0
+			}
+			c.Count("mc.c2f.meshes_with_ratio_8_to_32", 1)
+		}
+		mesh := model3d.MarchingCubesC2F(s, big, small, 0, iters)
 		tris := vlib.Tris(mesh)
 		topo := vlib.AnalyzeTris(tris)
 		c.Count("mc.c2f.meshes", 1)
@@ -375,7 +391,7 @@ func lattice3(r *vlib.Run) {
 		if topo.ClosedOrientedManifold() && topo.Euler != wantEuler {
 			c.Violation("model3d.MarchingCubesC2F/euler", fmt.Sprintf("Euler characteristic %d, want %d", topo.Euler, wantEuler), map[string]interface{}{"kind": kind, "big": big, "small": small})
 		}
-		c.Nontrivial(fmt.Sprint("c2f", kind, big, small, ctr))
+		c.Nontrivial(fmt.Sprint("c2f", kind, big, small, ctr, iters))
 	})
 }
 
